@@ -285,6 +285,13 @@ def _sd_events(F):
       doc="framing language: success paths of SdCardInner::read are CMD17 read_data | CMD18 read_data* CMD12; of write are CMD24 write_data(0xFE) wait CMD13 read_byte | ACMD23(n) wait CMD25 (wait write_data(0xFC))* wait write_byte(0xFD); single vs multi chosen by blocks.len() == 1; buffers are the caller's blocks in order")
 def sd6(F, R):
     fn = F.fn(SD + "::read")
+    # the R1 of the CMD12 that ends a multi-block read is not a verdict on the data: a card that pre-fetched past its last
+    # block legitimately answers "out of range" there (SD spec 4.3.3), after having delivered every requested block
+    for b12, t12 in fn.calls():
+        if call_matches(t12, ("SdCardInner::card_command",)) and cmd_const(fn.term_of_operand(t12["args"][1], b12))[0] == "CMD12":
+            judged = [repr(g)[:70] for (gb, gi, g) in all_guards(fn)
+                      if g.kind in ("bool", "value", "values") and has_sub(g.term, lambda q: q[0] == "call" and q[3] == b12 and q[1] and q[1].endswith("card_command"))]
+            R.require(not judged, fn, "cmd12-r1-not-judged", "read() makes its result depend on the R1 byte of the closing CMD12 (%s): reads that end on the card's last block fail although all data arrived" % "; ".join(judged[:2]), fn.loc(b12))
     T = {
         ("S0", "cmd:CMD17"): "R1", ("R1", "read_data"): "ACC",
         ("S0", "cmd:CMD18"): "M1", ("M1", "read_data"): "M1", ("M1", "cmd:CMD12"): "ACC",
@@ -388,6 +395,54 @@ def sd7(F, R):
             continue
         vars_ = set()
         helper_calls = []
+        # general form: the address *expression* of each data command, with every local in it replaced by the definitions
+        # that reach the command once the card-type tests are decided for one kind (idx * units_per_block with units chosen by
+        # a match, a per-kind address variable, ...): it must be idx*512 resp. idx as a polynomial
+        argterms = [strip_refs(fn.term_of_operand(t["args"][2], b)) for b, t in data_cmds]
+        if any(a[0] not in ("var",) and not (a[0] == "place" and tuple(a[2]) == ("as:Continue", "0")) for a in argterms):
+            from .poly import peq, MUL, C
+            from .ev import specialise_enum
+            vs = F.variants("sdcard::CardType")
+            is_opt = lambda x: x[0] == "place" and x[2] and x[2][-1] == "card_type"
+            is_kind = lambda x: (x[0] == "place" and "card_type" in x[2] and "as:Some" in x[2] and x[2][-1] == "0") or (x[0] == "var" and isinstance(x[1], int) and fn.locals[x[1]]["ty"].endswith("CardType"))
+            cmd_blocks = [b for b, t in data_cmds]
+            for kind in [None] + list(vs):
+                cut = specialise_enum(fn, is_opt, ["None", "Some"], "None" if kind is None else "Some")
+                if kind is not None:
+                    cut += specialise_enum(fn, is_kind, vs, kind)
+                rs = fn.reach([0], cut_edges=cut)
+                if kind is None:
+                    R.require(not any(b in rs for b in cmd_blocks), fn, "uninit:no-command", "a data command is sent although the card is not initialised (card_type == None)", fn.loc(0))
+                    errs = [x for x in err_returns(fn, adt="Error") if x[2] == "CardNotFound" and x[0] in rs]
+                    R.require(len(errs) >= 1 and not any(x[0] in rs for x in ok_returns(fn)), fn, "uninit->CardNotFound", "uninitialised card must give Err(CardNotFound)", fn.loc(0))
+                    continue
+
+                def alts(t_, depth=0):
+                    """closed alternatives of a term under this kind"""
+                    t_ = strip_refs(t_)
+                    if depth > 5:
+                        return [t_]
+                    if t_[0] == "var":
+                        out = []
+                        for d in fn.defs().get(t_[1], []):
+                            if d[0] == "assign" and d[1] in rs and any(cb in fn.reach([d[1]], cut_edges=cut) for cb in cmd_blocks):
+                                out += alts(fn.term_of_rvalue(d[3], d[1]), depth + 1)
+                        return out or [t_]
+                    if t_[0] == "bin":
+                        return [("bin", t_[1], x, y) for x in alts(t_[2], depth + 1) for y in alts(t_[3], depth + 1)][:16]
+                    if t_[0] == "cast":
+                        return [("cast", t_[1], x) + tuple(t_[3:]) for x in alts(t_[2], depth + 1)]
+                    return [t_]
+                forms = set()
+                for a in argterms:
+                    for val in alts(a):
+                        forms.add("idx*512" if peq(val, MUL(("arg", 3, None), C(512))) else ("idx" if peq(val, ("arg", 3, None)) else tstr(val)[:60]))
+                tab[kind] = "|".join(sorted(forms)) or "unreachable"
+            tables[name] = tab
+            want = {k: ("idx" if k == "SDHC" else "idx*512") for k in vs}
+            R.require(tab == want, fn, "forms", "the data command address must be idx*512 for SD1/SD2 (byte addressed) and idx for SDHC (block addressed), got %s" % tab, fn.loc(0), okdetail="address table %s" % tab)
+            R.ok(fn, "mapping", "decided per card kind by specialising every card_type test and substituting the reaching definitions")
+            continue
         for b, t in data_cmds:
             a = strip_refs(fn.term_of_operand(t["args"][2], b))
             if a[0] == "var":
@@ -552,6 +607,8 @@ def _byte_of(t, k):
     t = _widen(t)
     if t[0] == "place" and len(t[2]) == 1 and isinstance(t[2][0], tuple) and t[2][0][0] == "idx" and t[2][0][1][:2] == ("c", k):
         return strip_refs(t[1])
+    if t[0] == "place" and len(t[2]) == 1 and isinstance(t[2][0], tuple) and t[2][0][0] == "cidx" and t[2][0][1] == k:
+        return strip_refs(t[1])             # `let [hi, lo] = a`: the constant-index form of a[k]
     return None
 
 
@@ -665,6 +722,8 @@ def sd10(F, R):
                     if e is not None and from_call(fn, e["$s"], "SdCardInner::read_byte"):
                         return True
                 return False
+            if g.kind == "value" and g.value == acc_ and masked(g.term):
+                return True                 # `match status & MASK { ACCEPTED => .., _ => .. }`
             return g_cmp("Eq", True, masked, lambda z: z[:2] == ("c", acc_))(g)
         ok, _ = guarded(fn, b, acc)
         R.require(ok, fn, "accepted", "write_data returns Ok without (status & DATA_RES_MASK) == DATA_RES_ACCEPTED", fn.loc(b, i))
@@ -684,7 +743,7 @@ def sd10(F, R):
         if crcv[0] == "var":
             defs = var_def_terms(fn, crcv[1])
             ds = sorted(tstr(d) for d in defs)
-            okc = len(defs) == 2 and any(tmatch(d, ("call", "to_be_bytes", [("call", "sdcard::proto::crc16", [("deref*", ("arg", 3))])])) is not None for d in defs) and any(tmatch(d, ("agg", "_", [("c", 0xFF), ("c", 0xFF)])) is not None for d in defs)
+            okc = len(defs) == 2 and any(tmatch(d, ("call", "to_be_bytes", [("call", "sdcard::proto::crc16", [("deref*", ("arg", 3))])])) is not None for d in defs) and any(tmatch(d, ("agg", "_", [("c", 0xFF), ("c", 0xFF)])) is not None or (d[0] == "repeat" and d[1][:2] == ("c", 0xFF) and str(d[2]) in ("2", "2_usize")) for d in defs)
             # the CRC variant is selected exactly when use_crc is set
             for df in fn.defs().get(crcv[1], []):
                 dterm = fn.term_of_rvalue(df[3], df[1]) if df[0] == "assign" else fn.call_term(df[2], df[1])
@@ -885,6 +944,19 @@ def sd13(F, R):
             if bb in after and (callee_of(t) or "").endswith("FromResidual::from_residual"):
                 bad.append(f.loc(bb))
         R.require(not bad, f, "no-err-after-commit", "an Err return is reachable after the card type has been committed (%s): a failed initialisation would leave the card marked initialised" % bad, f.loc(b, i))
+    # ... and nothing that can fail comes after the committing closure has returned: acquire hands back the closure's own result
+    if stores and stores[0][0] is not acq:
+        cc = [b for b, t in acq.calls() if (callee_of(t) or "").endswith(("Fn::call", "FnMut::call_mut", "FnOnce::call_once"))]
+        bad2 = []
+        for cb in cc:
+            after = acq.reach_after(cb)
+            for bb, t in acq.calls():
+                if bb in after and (callee_of(t) or "").endswith(("FromResidual::from_residual", "Try::branch")):
+                    bad2.append(acq.loc(bb))
+            for (eb, ei, var, term) in err_returns(acq, adt="Error"):
+                if eb in after:
+                    bad2.append(acq.loc(eb, ei))
+        R.require(bool(cc) and not bad2, acq, "no-err-after-commit:outer", "after the initialisation sequence (which commits the card type on success) acquire can still fail (%s): the call reports an error but the card stays marked initialised, so the next call skips CMD0" % bad2, acq.loc(cc[0]) if cc else acq.loc(0))
     m = [f for f in F.fns if f.npath.endswith("SdCard::mark_card_uninit")]
     okm = False
     for f in m:
@@ -935,6 +1007,17 @@ def sd14(F, R):
     R.require(ok0, f, "cmd0-idle", "identification proceeds past CMD0 without an R1_IDLE_STATE (0x01) answer", f.loc(byname["CMD8"][0]))
     ok59, _ = guarded(f, byname["CMD59"][0], lambda g: g.kind == "bool" and last_field(g.term) == "use_crc" and g.truth is True)
     R.require(ok59 and byname["CMD59"][2][:2] == ("c", 1), f, "cmd59", "CMD59(1) must be sent exactly when use_crc is set", f.loc(byname["CMD59"][0]))
+    # "exactly": no other test of driver state stands between use_crc and the command (CMD0 has just reset the card to CRC-off,
+    # so a "done already" flag from an earlier acquisition must not suppress it)
+    extra59 = []
+    for (gb, gi, g) in all_guards(f):
+        if g.kind == "bool" and f.unreachable_without(byname["CMD59"][0], [(gb, gi)]):
+            t_ = strip_refs(g.term)
+            if last_field(g.term) == "use_crc":
+                continue
+            if t_[0] == "place" and strip_refs(t_[1])[0] == "arg" and not has_sub(t_, lambda q: q[0] == "call"):
+                extra59.append(repr(g)[:60])
+    R.require(not extra59, f, "cmd59-every-acquire", "CMD59 is sent only under a further test of driver state (%s): after a re-initialisation (CMD0 resets the card to CRC off) driver and card disagree about the CRC mode" % "; ".join(extra59), f.loc(byname["CMD59"][0]))
     R.require(byname["CMD8"][2][:2] == ("c", 0x1AA), f, "cmd8-arg", "CMD8 argument must be 0x1AA", f.loc(byname["CMD8"][0]))
     # card type / ACMD41 arg pairing
     pairs = {}
@@ -956,6 +1039,27 @@ def sd14(F, R):
             for ka, va in ((x0, x1), (x1, x0)):
                 if ka[0] == "agg" and ka[2] and "CardType::" in ka[2] and va[0] == "c" and isinstance(va[1], int):
                     pairs[ka[2].split("::")[-1]] = (va[1], b)
+    # ... or the argument is chosen afterwards by a match on the card type found: decided per card type
+    if not ("SD1" in pairs and "SD2" in pairs) and "ACMD41" in byname:
+        from .ev import specialise_enum
+        argt = strip_refs(byname["ACMD41"][2])
+        if argt[0] == "var":
+            is_ct = lambda t_: strip_refs(t_)[0] == "var" and "CardType" in f.locals[strip_refs(t_)[1]]["ty"]
+            vs_ = F.variants("sdcard::CardType")
+            for kind in ("SD1", "SD2"):
+                rs_ = f.reach([0], cut_edges=specialise_enum(f, is_ct, vs_, kind))
+                vals_ = set()
+                for d in f.defs().get(argt[1], []):
+                    if d[0] == "assign" and d[1] in rs_:
+                        dv = f.term_of_rvalue(d[3], d[1])
+                        vals_.add(dv[1] if dv[0] == "c" else None)
+                # only the arm definitions behind the match are candidates: a definition reachable for both kinds with
+                # different constants is resolved by the specialisation (the other arm is cut)
+                if len(vals_) == 1 and None not in vals_:
+                    # (the block is where this kind is decided: the guards on CMD8's answer are checked there)
+                    kb = [b for b, i, s_ in f.stmts() if s_["k"] == "Assign" and not s_["p"]["proj"] and (lambda v_: v_[0] == "agg" and v_[2] and v_[2].endswith("CardType::" + kind))(f.term_of_rvalue(s_["rv"], b))]
+                    if len(kb) == 1:
+                        pairs[kind] = (list(vals_)[0], kb[0])
     R.require(pairs.get("SD1", (None,))[0] == 0 and pairs.get("SD2", (None,))[0] == 0x40000000, f, "acmd41-arg", "ACMD41 argument must be 0 for SD1 and 0x4000_0000 (HCS) for SD2; got %s" % {k: hex(v[0]) for k, v in pairs.items()}, f.loc(0))
     if "SD1" in pairs:
         ok, _ = guarded(f, pairs["SD1"][1], g_cmp("Eq", True, lambda a: has_sub(a, lambda q: q[0] == "call" and q[1] and path_matches(q[1], "SdCardInner::card_command")), lambda z: z == ("c", 5, None) or tstr(z) in ("5", "BitOr(R1_ILLEGAL_COMMAND=4, R1_IDLE_STATE=1)")))
@@ -1037,6 +1141,9 @@ def _loop_budget(F, fn, h, body):
                 return ("delay-arg", d[2])
             if d[0] == "var":
                 for dt in var_def_terms(fn, d[1]):
+                    dt = strip_refs(dt)
+                    if dt[0] == "arg":
+                        return ("delay-arg", dt[2])             # the parameter handed on (through an inlined helper's own parameter)
                     if dt[0] == "call" and dt[1]:
                         nm = dt[1].split("::")[-1]
                         if nm in DELAY_CTORS:
@@ -1234,7 +1341,7 @@ def sd19(F, R):
                     sites_ = [bb for bb, tt in fn.calls() if call_matches(tt, ("SdCardInner::write_byte", "SdCardInner::write_bytes"))]
                     ok = len(sites_) == 1 and bool(call_matches(t, ("SdCardInner::write_bytes",))) and fn.locals[a[1]]["ty"].replace(" ", "") == "[u8;6]"
                 elif fn.npath.endswith("SdCardInner::write_data"):
-                    ok = all((d[0] == "call" and d[1] and d[1].endswith("to_be_bytes")) or (d[0] == "agg" and d[3] and all(o[:2] == ("c", 0xFF) for o in d[3])) for d in defs)
+                    ok = all((d[0] == "call" and d[1] and d[1].endswith("to_be_bytes")) or (d[0] == "agg" and d[3] and all(o[:2] == ("c", 0xFF) for o in d[3])) or (d[0] == "repeat" and d[1][:2] == ("c", 0xFF)) for d in defs)
                 else:
                     ok = all((d[0] == "repeat" and d[1][:2] == ("c", 0xFF)) or (d[0] == "agg" and d[3] and all(o[:2] == ("c", 0xFF) for o in d[3])) for d in defs) and bool(defs)
             elif a[0] == "repeat":
